@@ -54,8 +54,10 @@ def _one_run(job):
             # first: results must not depend on what was computed before
             pre = prob.simulation(1, None, gmode)
             pre.compute()
-        sim = prob.simulation(0, os.path.join(tmp, "fd") if file_mode else None,
-                              gmode)
+        # (a directory name with a dot: hand-over file names are derived from
+        # the path)
+        sim = prob.simulation(0, os.path.join(tmp, "fd.v2") if file_mode
+                              else None, gmode)
         sim.max_workers = maxw
         if not use_tqdm:
             _mp.tqdm = None
@@ -112,14 +114,18 @@ def _one_run(job):
         slots[4] = slot_tags("efield", 4)
         res["syn2"] = sim.data.synthetic.data.copy()
         res["ef2"] = [sim.get_efield(s, f).field.copy() for s, f in sim._srcfreq]
+        # J v directly after a forward run (the last solves used the forward
+        # tolerance): the same product as before
+        res["jvec2"] = np.array(sim.jvec(prob.v))
+        slots[5] = None
         # ---- a survey with a single source-frequency pair: compute, replace
         # the model in place (no clean), compute again: the second run gives
         # the new model's results whatever the execution mode
         # (one task per batch: not part of the recorded N = 4 trace)
         _mp.process_map = orig_pm
         p1 = simreplay.Problem(dict(one=True, irregular=True), seed=5)
-        s1 = p1.simulation(0, os.path.join(tmp, "fd1") if file_mode else None,
-                           "same")
+        s1 = p1.simulation(0, os.path.join(tmp, "fd1.b") if file_mode
+                           else None, "same")
         s1.max_workers = maxw
         s1.verb = -1
         s1.compute()
@@ -165,6 +171,7 @@ def _one_run(job):
                                       equal_nan=True)
             for key, val in (("syn", res["syn"]), ("syn", res["syn2"]),
                              ("grad", res["grad"]), ("jvec", res["jvec"]),
+                             ("jvec", res["jvec2"]),
                              ("one_a", res["one_a"]), ("one_b", res["one_b"]),
                              ("one_ef", res["one_ef"])):
                 if not same(val, key):
